@@ -326,6 +326,10 @@ type verifGS struct {
 	StoreErr   error // returned by RegisterPersistenceOption
 	// CancelGate, when non-nil, makes Cancel wait for a value before it returns.
 	CancelGate chan struct{}
+	// OnCancel, when set, runs inside Cancel before it returns: graphsync serialises a local cancel
+	// behind the callbacks already in progress on its loop (requester-cancelled listener, incoming
+	// request hook, ...), so Cancel may complete only after such a callback has returned.
+	OnCancel func(id graphsync.RequestID)
 	// OnRequest, when set, plays graphsync's part of Request: it runs the outgoing-request
 	// hook for the new request and returns the progress / error channels.
 	OnRequest func(p peer.ID, exts []graphsync.ExtensionData) (<-chan graphsync.ResponseProgress, <-chan error)
@@ -364,6 +368,10 @@ func (g *verifGS) Cancel(ctx context.Context, id graphsync.RequestID) error {
 	g.Calls = append(g.Calls, verifGsCall{Op: gsCancel, ID: id})
 	if g.CancelGate != nil {
 		<-g.CancelGate
+	}
+	if h := g.OnCancel; h != nil {
+		g.OnCancel = nil
+		h(id)
 	}
 	g.Calls[i].Returned = true
 	return g.CancelErr
